@@ -14,4 +14,4 @@ EXPLANATION = B.MIXED + (
 def run(rep, tier):
     kernels.oracle_self_check(rep)
     kernels.run_generators(rep, ["apply_operator_vector", "apply_operator_matrix"])
-    B.run_b(rep, morecells.kraus_cells(tier, common.seed()), ["C06"])
+    B.run_b(rep, morecells.kraus_cells(tier, common.seed()), ["C06"], tier=tier)
